@@ -1223,6 +1223,8 @@ pub fn pair_values(f: &Field, depth: Depth) -> Vec<Val> {
             v.dedup();
             n(&v)
         },
+        // (... and two texts shaped like the names LFS itself puts there: a standard car's and a mod's default skin)
+        Ty::Text(w) if *w >= 8 => vec![Val::S(String::new()), Val::S("Z".repeat(*w - 1)), Val::S("XFG_DEFAULT".chars().take(*w - 1).collect()), Val::S("39CEEB_DEFAULT".chars().take(*w - 1).collect())],
         Ty::Text(w) | Ty::Raw(w) => vec![Val::S(String::new()), Val::S("Z".repeat(*w - 1))],
         Ty::Vehicle => n(&[0, u32::from_le_bytes(*b"XFG\0") as i64, u32::from_le_bytes(*b"FBM\0") as i64, 0x0012_3456, 0xffff_ffff]),
         Ty::RaceLaps => n(&[0, 1, 99, 100, 190, 191, 238]),
